@@ -1010,6 +1010,7 @@ package server
 //@ ensures[C06,C07,C08] works_on_a_copy: err == nil ==> result0 != nil && fresh(result0) && result0.name == name && result0.pauseController != nil && !isnil(result0.middleware)
 
 //@ func (*server.Router).DeployService
+//@ emits CmdDeploy(r, name, deployTimeout, drainTimeout, isnil(result))
 //@ requires r.services != nil
 //@ attr blocks
 //@ assigns *
@@ -1019,6 +1020,7 @@ package server
 //@ ensures[C17] bounded_by_deploy_plus_drain_timeout: now <= old(now) + max(deployTimeout, 0) + max(drainTimeout, 0)
 
 //@ func (*server.Router).SetRolloutTargets
+//@ emits CmdRolloutDeploy(r, name, deployTimeout, drainTimeout, isnil(result))
 //@ requires r.services != nil
 //@ attr blocks
 //@ assigns *
@@ -1028,6 +1030,7 @@ package server
 //@ ensures[C17] bounded_by_deploy_plus_drain_timeout: now <= old(now) + max(deployTimeout, 0) + max(drainTimeout, 0)
 
 //@ func (*server.Router).SetRolloutSplit
+//@ emits CmdRolloutSet(r, name, percent, isnil(result))
 //@ requires r.services != nil
 //@ attr blocks
 //@ assigns Service.rolloutController, `os.File`.content
@@ -1037,6 +1040,7 @@ package server
 //@ ensures[C17] returns_without_waiting: now == old(now)
 
 //@ func (*server.Router).StopRollout
+//@ emits CmdRolloutStop(r, name, isnil(result))
 //@ requires r.services != nil
 //@ attr blocks
 //@ assigns Service.rolloutController, `os.File`.content
@@ -1045,6 +1049,7 @@ package server
 //@ ensures[C17] returns_without_waiting: now == old(now)
 
 //@ func (*server.Router).PauseService
+//@ emits CmdPause(r, name, drainTimeout, pauseTimeout, isnil(result))
 //@ requires r.services != nil
 //@ attr blocks
 //@ assigns *
@@ -1055,6 +1060,7 @@ package server
 //@ ensures[C12,C11] snapshot_taken: last_is(Snapshot(r))
 
 //@ func (*server.Router).StopService
+//@ emits CmdStop(r, name, drainTimeout, message, isnil(result))
 //@ requires r.services != nil
 //@ attr blocks
 //@ assigns *
@@ -1065,6 +1071,7 @@ package server
 //@ ensures[C12,C11] snapshot_taken: last_is(Snapshot(r))
 
 //@ func (*server.Router).ResumeService
+//@ emits CmdResume(r, name, isnil(result))
 //@ requires r.services != nil
 //@ attr blocks
 //@ assigns *
@@ -1074,6 +1081,7 @@ package server
 //@ ensures[C12,C11] snapshot_taken: last_is(Snapshot(r))
 
 //@ func (*server.Router).RemoveService
+//@ emits CmdRemove(r, name, isnil(result))
 //@ requires r.services != nil
 //@ attr blocks
 //@ assigns *
@@ -1128,3 +1136,67 @@ package server
 //@ ensures[C04] served_by_the_service_the_table_chose: all(ServiceServe, emitted(Routed(_, req, $0, _))) && (emitted(ServiceServe(_, _, _)) ==> emitted(ServiceServe(_, w, _)))
 //@ ensures[C13] same_request_unless_stripping: all(ServiceServe, forall p string :: emitted(Routed(_, _, _, p)) && !(old(as($0, `*Service`).options.StripPrefix) && p != "/") ==> $2 == ref(req))
 //@ ensures[C13] matched_prefix_travels_with_the_request_when_stripping: all(ServiceServe, forall p string :: emitted(Routed(_, _, _, p)) && old(as($0, `*Service`).options.StripPrefix) && p != "/" ==> ctxtyp(as($2, `*net/http.Request`), ROUTEKEY) == typeid(*routingContext) && as(ctxval(as($2, `*net/http.Request`), ROUTEKEY), `*routingContext`).MatchedPrefix == p && as($2, `*net/http.Request`).URL == req.URL && as($2, `*net/http.Request`).Method == req.Method)
+
+//@ func (*server.CommandHandler).Deploy
+//@ requires h.router != nil && h.router.services != nil
+//@ attr blocks
+//@ assigns *
+//@ may_emit *
+//@ ensures[C20,C17] arguments_reach_the_router_in_position: count(CmdDeploy(_, _, _, _, _)) == 1 && emitted(CmdDeploy(old(h.router), args.Service, args.DeployTimeout, args.DrainTimeout, _))
+//@ ensures[C20] error_is_reported_to_the_client: emitted(CmdDeploy(_, _, _, _, result == nil))
+
+//@ func (*server.CommandHandler).RolloutDeploy
+//@ requires h.router != nil && h.router.services != nil
+//@ attr blocks
+//@ assigns *
+//@ may_emit *
+//@ ensures[C20,C17] arguments_reach_the_router_in_position: count(CmdRolloutDeploy(_, _, _, _, _)) == 1 && emitted(CmdRolloutDeploy(old(h.router), args.Service, args.DeployTimeout, args.DrainTimeout, _))
+//@ ensures[C20] error_is_reported_to_the_client: emitted(CmdRolloutDeploy(_, _, _, _, result == nil))
+
+//@ func (*server.CommandHandler).RolloutSet
+//@ requires h.router != nil && h.router.services != nil
+//@ attr blocks
+//@ assigns *
+//@ may_emit *
+//@ ensures[C20,C17] arguments_reach_the_router_in_position: count(CmdRolloutSet(_, _, _, _)) == 1 && emitted(CmdRolloutSet(old(h.router), args.Service, args.Percentage, _))
+//@ ensures[C20] error_is_reported_to_the_client: emitted(CmdRolloutSet(_, _, _, result == nil))
+
+//@ func (*server.CommandHandler).RolloutStop
+//@ requires h.router != nil && h.router.services != nil
+//@ attr blocks
+//@ assigns *
+//@ may_emit *
+//@ ensures[C20,C17] arguments_reach_the_router_in_position: count(CmdRolloutStop(_, _, _)) == 1 && emitted(CmdRolloutStop(old(h.router), args.Service, _))
+//@ ensures[C20] error_is_reported_to_the_client: emitted(CmdRolloutStop(_, _, result == nil))
+
+//@ func (*server.CommandHandler).Pause
+//@ requires h.router != nil && h.router.services != nil
+//@ attr blocks
+//@ assigns *
+//@ may_emit *
+//@ ensures[C20,C17] arguments_reach_the_router_in_position: count(CmdPause(_, _, _, _, _)) == 1 && emitted(CmdPause(old(h.router), args.Service, args.DrainTimeout, args.PauseTimeout, _))
+//@ ensures[C20] error_is_reported_to_the_client: emitted(CmdPause(_, _, _, _, result == nil))
+
+//@ func (*server.CommandHandler).Stop
+//@ requires h.router != nil && h.router.services != nil
+//@ attr blocks
+//@ assigns *
+//@ may_emit *
+//@ ensures[C20,C17] arguments_reach_the_router_in_position: count(CmdStop(_, _, _, _, _)) == 1 && emitted(CmdStop(old(h.router), args.Service, args.DrainTimeout, args.Message, _))
+//@ ensures[C20] error_is_reported_to_the_client: emitted(CmdStop(_, _, _, _, result == nil))
+
+//@ func (*server.CommandHandler).Resume
+//@ requires h.router != nil && h.router.services != nil
+//@ attr blocks
+//@ assigns *
+//@ may_emit *
+//@ ensures[C20,C17] arguments_reach_the_router_in_position: count(CmdResume(_, _, _)) == 1 && emitted(CmdResume(old(h.router), args.Service, _))
+//@ ensures[C20] error_is_reported_to_the_client: emitted(CmdResume(_, _, result == nil))
+
+//@ func (*server.CommandHandler).Remove
+//@ requires h.router != nil && h.router.services != nil
+//@ attr blocks
+//@ assigns *
+//@ may_emit *
+//@ ensures[C20,C17] arguments_reach_the_router_in_position: count(CmdRemove(_, _, _)) == 1 && emitted(CmdRemove(old(h.router), args.Service, _))
+//@ ensures[C20] error_is_reported_to_the_client: emitted(CmdRemove(_, _, result == nil))
